@@ -207,16 +207,16 @@ def input_methods(an, rep, extra_crates=()):
         if okk:
             p = oks[0]
             rb = p.calls("BinaryInput::read_bytes")
-            fb = p.calls("%s::from_be_bytes" % ty)
-            okk = len(rb) == 1 and len(fb) == 1 and guards.rng(rb[0][5][1]) == (size, size) and _arg(rb[0][5][0], 1)
+            ret = strip_refs(p.outcome[1])
+            val = strip_refs(ret[4][0]) if ret[0] == "agg" and ret[3] == "Ok" and ret[4] else ("unk",)
+            okk = len(rb) == 1 and guards.rng(rb[0][5][1]) == (size, size) and _arg(rb[0][5][0], 1) and \
+                val[0] == "call" and val[1] == "%s::from_be_bytes" % ty and len(val[3]) == 1
             if okk:
-                # the from_be_bytes argument derives from the read bytes through try_into
-                src = fb[0][5][0]
+                # the from_be_bytes argument derives from the bytes read through a checked slice -> array conversion
+                src = val[3][0]
                 sites = [x[4] for x in mir.walk_expr(src) if x[0] == "call"]
-                okk = rb[0][1] in sites and any(x[0] == "call" and x[1].endswith("try_into") for x in mir.walk_expr(src))
-                ret = strip_refs(p.outcome[1])
-                okk = okk and ret[0] == "agg" and ret[3] == "Ok" and strip_refs(ret[4][0])[0] == "call" and \
-                    strip_refs(ret[4][0])[4] == fb[0][1]
+                okk = rb[0][1] in sites and any(x[0] == "call" and x[1].endswith(("try_into", "try_from"))
+                                                for x in mir.walk_expr(src))
             detail = [walk.show_event(e) for e in p.calls()][:6]
         errs = [p for p in ps if not p.returns_ok()]
         okk = okk and all(p.outcome[0] == "return" and p.outcome[1][0] == "errprop" for p in errs)
@@ -302,38 +302,72 @@ def _subst(x, a, b):
     return x
 
 
-def _fail_condition(path, src):
-    """canonical atoms (op, l, r) true on this path, built from bool atoms"""
-    out = []
-    flip = {"Lt": "Gt", "Gt": "Lt", "Le": "Ge", "Ge": "Le", "Eq": "Eq", "Ne": "Ne"}
-    for a in path.atoms():
-        for op, l, r in guards.bool_atoms(a[1], a[2]):
-            l, r = _canon(l, src), _canon(r, src)
-            # one orientation: the cursor / the count on the left
-            if r in ("CUR", "COUNT") and l not in ("CUR", "COUNT"):
-                op, l, r = flip[op], r, l
-            out.append((op, l, r))
-    return out
-
-
-ACCEPT_GUARD = {
-    "read_u8": [("Ge", "CUR", "END"), ("Le", "END", "CUR")],
-    "read_bytes": [("Gt", "COUNT", ("satsub", "END", "CUR")), ("Lt", ("satsub", "END", "CUR"), "COUNT")],
-    "skip": [("Gt", "COUNT", ("satsub", "END", "CUR")), ("Lt", ("satsub", "END", "CUR"), "COUNT")],
-}
+FLIP = {"Lt": "Gt", "Gt": "Lt", "Le": "Ge", "Ge": "Le", "Eq": "Eq", "Ne": "Ne"}
 NEG = {"Lt": "Ge", "Le": "Gt", "Gt": "Le", "Ge": "Lt", "Eq": "Ne", "Ne": "Eq"}
-# after orientation (cursor / count on the left) the accepted overflow-safe guards are:
-ACCEPT_GUARD = {
-    "read_u8": [("Ge", "CUR", "END")],
-    "read_bytes": [("Gt", "COUNT", ("satsub", "END", "CUR"))],
-    "skip": [("Gt", "COUNT", ("satsub", "END", "CUR"))],
-}
+
+
+def _need1(x):
+    """in read_u8 the constant 1 plays the role of the count"""
+    if x == ("const", 1):
+        return "COUNT"
+    if isinstance(x, tuple):
+        return tuple(_need1(y) for y in x)
+    return x
+
+
+def _fail_facts(path, src, method):
+    """For each decision on the path: True (this decision says `not enough input`), False (enough) or a description of an
+    unrecognised test.  Recognised idioms, all equivalent to  need > END - CUR  without overflow:
+       need > END.saturating_sub(CUR)      (either orientation, `<` form)
+       CUR >= END / END <= CUR             (need == 1)
+       END.saturating_sub(CUR) == 0        (need == 1)
+       input.get(CUR) is None              (need == 1)"""
+    facts = []
+    for a in path.atoms():
+        cond, val = a[1], a[2]
+        if cond[0] == "discr":
+            inner = strip_refs(cond[1])
+            if inner[0] == "try":
+                continue
+            if inner[0] == "call" and inner[1] in ("[T]::get", "[T]::first") and method == "read_u8":
+                cc = [_canon(x, src) for x in inner[3]]
+                v = walk.atom_variant(a)
+                if cc[0] == "INPUT" and (len(cc) == 1 or cc[1] == "CUR") and v in ("Some", "None"):
+                    facts.append(v == "None")
+                    continue
+            if inner[0] in ("arg", "phi", "const"):
+                continue
+            facts.append("match on %s" % show(inner)[:80])
+            continue
+        atoms = guards.bool_atoms(cond, val)
+        if not atoms:
+            e = cond
+            if e[0] in ("phi", "const"):
+                continue
+            facts.append("test %s" % show(cond)[:80])
+            continue
+        for op, l, r in atoms:
+            l, r = _canon(l, src), _canon(r, src)
+            if method == "read_u8":
+                l, r = _need1(l), _need1(r)
+            if r in ("CUR", "COUNT") and l not in ("CUR", "COUNT"):
+                op, l, r = FLIP[op], r, l
+            avail = ("satsub", "END", "CUR")
+            if (l, r) == ("COUNT", avail):
+                facts.append({"Gt": True, "Le": False}.get(op, "comparison COUNT %s available" % op))
+            elif (l, r) == ("CUR", "END") and method == "read_u8":
+                facts.append({"Ge": True, "Lt": False}.get(op, "comparison CUR %s END" % op))
+            elif l == avail and r == ("const", 0) and method == "read_u8":
+                facts.append({"Eq": True, "Ne": False, "Gt": False}.get(op, "comparison available %s 0" % op))
+            else:
+                facts.append("comparison %s %s %s" % (l, op, r))
+    return facts
 
 
 def sources_agree(an, rep):
-    R = rep.rule("P4", "the three input sources agree method by method: one overflow-safe guard over (cursor, end, count) "
-                       "in absolute coordinates, InputEndedUnexpectedly on its failing edge and nothing else, cursor "
-                       "advanced by exactly 1/count on the passing edge, returned bytes = input[cursor .. cursor+count]")
+    R = rep.rule("P4", "the three input sources agree method by method: exactly one overflow-safe decision `need > end - cursor` "
+                       "(in absolute coordinates; accepted idioms listed in the rule) selects InputEndedUnexpectedly, the cursor "
+                       "is advanced by exactly 1 / count otherwise, returned bytes = input[cursor .. cursor+count]")
     core = an.core()
     summaries = {}
     for src in SOURCES:
@@ -344,62 +378,85 @@ def sources_agree(an, rep):
                 R.anchor_missing(key)
                 continue
             ps = walk.walk(b, core)
+            where = mir.loc(b, 0)
             oks = [p for p in ps if p.returns_ok()]
             errs = [p for p in ps if p.outcome[0] == "return" and not p.returns_ok()]
             others = [p for p in ps if p.outcome[0] != "return"]
-            where = mir.loc(b, 0)
-            if not R.check(len(oks) == 1 and len(errs) >= 1 and not others, key, "paths", "expected one Ok path and error "
+            if not R.check(len(oks) >= 1 and len(errs) >= 1 and not others, key, "paths", "expected successful and failing "
                            "paths only (found %d ok, %d err, %d other)" % (len(oks), len(errs), len(others)), where):
                 continue
-            okp = oks[0]
-            # (1) error paths: exactly Err(InputEndedUnexpectedly), and their condition is the negation of the Ok guard
-            for p in errs:
-                R.check(walk.err_variant(p.outcome[1]) == "InputEndedUnexpectedly", key, "error variant",
-                        "failing edge returns %s instead of Err(InputEndedUnexpectedly)" % show(p.outcome[1]), where)
-            ok_atoms = _fail_condition(okp, src)
-            fail_atoms = [(NEG[op], l, r) for op, l, r in ok_atoms]
-            okg = len(ok_atoms) == 1 and fail_atoms[0] in ACCEPT_GUARD[m]
-            R.check(okg, key, "guard", "bounds guard (fails iff %s) is not one of the accepted overflow-safe forms %s in "
-                    "absolute coordinates" % (fail_atoms, ACCEPT_GUARD[m]), where,
-                    sample={"fn": key, "fails_iff": str(fail_atoms)})
-            # (2) cursor update
-            st = okp.stores()
-            inc = None
-            if len(st) == 1:
-                tgt = _canon(st[0][1], src)
-                val = _canon(st[0][2], src)
-                base = "CUR" if SOURCES[src]["start"] is None else "POS"
-                if tgt == base and isinstance(val, tuple) and val[0] == "bin" and val[1] == "Add" and val[2] == base:
-                    inc = val[3]
-            want = ("const", 1) if m == "read_u8" else "COUNT"
-            R.check(inc == want, key, "cursor update", "cursor is not advanced by exactly %s on the passing edge (stores: %s)"
-                    % (want, [show(s[2]) for s in st]), where)
-            # (3) returned value
-            ret = strip_refs(okp.outcome[1])
-            val = strip_refs(ret[4][0]) if ret[0] == "agg" and ret[3] == "Ok" and ret[4] else None
-            if m == "skip":
-                R.check(val is not None and val[0] == "agg" and val[1] == "tuple", key, "return", "skip returns a value", where)
-            elif m == "read_u8":
-                c = _canon(val, src) if val else None
-                idx_ok = c is not None and c[0] == "index" and c[1] == "INPUT" and c[2] == "CUR"
-                if not idx_ok and val is not None and val[0] == "call" and "Index" in val[1]:
-                    cc = [_canon(a, src) for a in val[3]]
-                    idx_ok = cc[0] == "INPUT" and cc[1] == "CUR"
-                R.check(idx_ok, key, "return", "returned byte is not input[cursor] (found %s)" % (c,), where)
-            else:
-                rng_ok = False
-                if val is not None and val[0] == "call" and "Index" in val[1]:
-                    cc = [_canon(a, src) for a in val[3]]
-                    r = cc[1]
-                    rng_ok = cc[0] == "INPUT" and isinstance(r, tuple) and r[0] == "agg" and r[2] and r[2].endswith("Range") \
-                        and r[4][0] == "CUR" and r[4][1] == ("bin", "Add", "CUR", "COUNT")
-                R.check(rng_ok, key, "return", "returned slice is not input[cursor .. cursor + count]", where)
-            summaries[(src, m)] = (tuple(fail_atoms), str(inc))
+            shape = []
+            for p in ps:
+                facts = _fail_facts(p, src, m)
+                bad = [f for f in facts if not isinstance(f, bool)]
+                for f in bad:
+                    R.fail(key, "guard idiom", "bounds decision `%s` is not one of the accepted overflow-safe idioms for "
+                           "`need > end - cursor` in absolute coordinates" % f, where)
+                dec = [f for f in facts if isinstance(f, bool)]
+                is_ok = p.returns_ok()
+                if not bad:
+                    R.check(len(dec) == 1 and dec[0] == (not is_ok), key, "decision", "a path returning %s is taken under the "
+                            "decisions %s (expected exactly one: `not enough input` == %s)" %
+                            ("Ok" if is_ok else "Err", dec, not is_ok), where, sample={"fn": key, "path": "Ok" if is_ok else "Err", "decision": dec})
+                if not is_ok:
+                    R.check(walk.err_variant(p.outcome[1]) == "InputEndedUnexpectedly", key, "error variant",
+                            "failing edge returns %s instead of Err(InputEndedUnexpectedly)" % show(p.outcome[1])[:100], where)
+                    R.check(not p.stores(), key, "failing edge moves the cursor", "the failing edge modifies the cursor", where)
+                    continue
+                # cursor update
+                st = p.stores()
+                inc = None
+                if len(st) == 1:
+                    tgt = _canon(st[0][1], src)
+                    val = _canon(st[0][2], src)
+                    base = "CUR" if SOURCES[src]["start"] is None else "POS"
+                    if tgt == base and isinstance(val, tuple) and val[0] == "bin" and val[1] == "Add" and val[2] == base:
+                        inc = val[3]
+                want = ("const", 1) if m == "read_u8" else "COUNT"
+                R.check(inc == want, key, "cursor update", "cursor is not advanced by exactly %s on the passing edge (stores: %s)"
+                        % (want, [show(s[2]) for s in st]), where)
+                # returned value
+                ret = strip_refs(p.outcome[1])
+                val = strip_refs(ret[4][0]) if ret[0] == "agg" and ret[3] == "Ok" and ret[4] else None
+                if m == "skip":
+                    R.check(val is not None and val[0] == "agg" and val[1] == "tuple", key, "return", "skip returns a value", where)
+                elif m == "read_u8":
+                    R.check(_is_input_at_cur(val, src), key, "return", "returned byte is not input[cursor] (found %s)" %
+                            (show(val)[:100] if val else None), where)
+                else:
+                    rng_ok = False
+                    if val is not None and val[0] == "call" and "Index" in val[1]:
+                        cc = [_canon(a, src) for a in val[3]]
+                        r = cc[1]
+                        rng_ok = cc[0] == "INPUT" and isinstance(r, tuple) and r[0] == "agg" and r[2] and r[2].endswith("Range") \
+                            and r[4][0] == "CUR" and r[4][1] == ("bin", "Add", "CUR", "COUNT")
+                    R.check(rng_ok, key, "return", "returned slice is not input[cursor .. cursor + count]", where)
+                shape.append(str(inc))
+            summaries[(src, m)] = tuple(sorted(set(shape)))
     for m in ("read_u8", "read_bytes", "skip"):
         vals = {src: summaries.get((src, m)) for src in SOURCES}
         R.check(len(set(vals.values())) == 1 and None not in vals.values(), "BinaryInput::" + m, "sibling agreement",
                 "the three sources disagree: %s" % vals, None, sample={"method": m, "summary": str(list(vals.values())[0])})
     return R
+
+
+def _is_input_at_cur(val, src):
+    if val is None:
+        return False
+    c = _canon(val, src)
+    if isinstance(c, tuple) and c[0] == "index" and c[1] == "INPUT" and c[2] == "CUR":
+        return True
+    if val[0] == "call" and "Index" in val[1]:
+        cc = [_canon(a, src) for a in val[3]]
+        return cc[0] == "INPUT" and cc[1] == "CUR"
+    # payload of input.get(cursor): Some(&byte)
+    v = val
+    while isinstance(v, tuple) and v[0] in ("field", "variant", "deref", "ref"):
+        v = v[1]
+    if isinstance(v, tuple) and v[0] == "call" and v[1] in ("[T]::get",):
+        cc = [_canon(a, src) for a in v[3]]
+        return cc[0] == "INPUT" and cc[1] == "CUR"
+    return False
 
 
 TYPE_TESTS = ("castaway::", "core::any::TypeId", "core::any::type_name", "core::mem::size_of", "core::intrinsics::size_of",
